@@ -84,6 +84,10 @@ def main():
             scale = max(abs(r[k]), 1e-300)
             if not (abs(d[k] - r[k]) <= tol * scale):
                 return "%s = %.17g on %d processes, %.17g on one (rel. diff %.3g > %.1g)" % (k, d[k], n, r[k], abs(d[k] - r[k]) / scale, tol)
+        # operator overloads: A^T u, y + alpha A^T u, y + alpha A u (y != r) equal the plain product (symmetric matrix) entry by entry
+        for k in ("at_diff", "at4_diff", "a4_diff"):
+            if not (d[k] <= 1e-12 * max(d["aint_max"], d["maxabs"], 1e-300)):
+                return "%s = %.3g: the overload differs from the plain distributed product (max |A u| = %.3g) on %d processes" % (k, d[k], d["aint_max"], n)
         # base splitter (join/split): the joined vector is the undecomposed one, the input is left alone, split inverts join
         for k, ref in (("join_norm", "int_norm"), ("join_norm2", "int_norm"), ("int_norm_after_join", "int_norm"), ("aint_norm_after_join", "aint_norm")) if case.get("splitter") else ():
             if not (abs(d[k] - d[ref]) <= 1e-12 * max(abs(d[ref]), 1e-300)):
